@@ -100,6 +100,8 @@ TINY = {
     "t_fork": {"name": "t_fork", "stages": [stage("a", [], [ok()]), stage("b", [], [ok()]), stage("c", ["a", "b"], [ok()])]},
     "t_two_tasks": {"name": "t_two_tasks", "stages": [stage("a", [], [ok(), ok()])]},
     "t_selfloop": {"name": "t_selfloop", "stages": [stage("a", [], [{"b": "jump", "to": "a", "j": 1}])]},
+    # the jumping task is followed by another task of its stage: the REDIRECT completion and the jump are queued together
+    "t_jump_then_task": {"name": "t_jump_then_task", "stages": [stage("a", [], [{"b": "jump", "to": "a", "j": 1}, ok()])]},
     "t_fail": {"name": "t_fail", "stages": [stage("a", [], [{"b": "fail"}]), stage("b", ["a"], [ok()])]},
     "t_skip": {"name": "t_skip", "stages": [stage("a", [], [ok()]), stage("b", ["a"], [ok()], enabled=False)]},
 }
@@ -115,12 +117,7 @@ def shard_exhaustive(prop: str, tier: str, seed: int, name: str, depth: int, off
         judge(c, prop, spec, run, {"style": "exhaustive", "d": [0] * offset + prefix, "R": 2}, _nontrivial(run) or bool(prefix),
               ["style:exhaustive"])
 
-    def mk(spec_, sched):  # noqa: ANN001
-        sched.d = [0] * offset + sched.d
-        sched.depth += offset
-        return Run(spec_, sched)
-
-    n, children = explore_exhaustive(spec, depth, visit, make_run=mk if offset else None, roots=roots, expand=expand)
+    n, children = explore_exhaustive(spec, depth, visit, roots=roots, expand=expand, offset=offset)
     c.extra[f"exhaustive:{name}@{offset}+{depth}"] = n
     out = c.export()
     out["children"] = children
@@ -142,7 +139,8 @@ def run(c: Campaign, jobs: int) -> None:
     # bounded-exhaustive part: level 1+2 of each DFS tree in a pre-pass, then the sub-trees spread over the pool
     from vlib.par import map_raw
 
-    windows = [(name, off) for name in TINY for off in ((0, 5) if quick else (0, 4, 8))]
+    # t_jump_then_task: the jump and the REDIRECT completion are queued by the 4th delivery, so the window starts there
+    windows = [(name, off) for name in TINY for off in ((0, 4) if name == "t_jump_then_task" and quick else (0, 5) if quick else (0, 4, 8))]
     depths = {name: (depth if quick else (5 if name == "t_fork" else 6)) for name in TINY}  # t_fork's tree grows fastest (two initial stages)
     lvl1 = map_raw(_dispatch, [(shard_exhaustive, (c.prop, c.tier, c.seed, n_, depths[n_], o_, None, False)) for n_, o_ in windows], jobs)
     lvl2_args = []
